@@ -79,13 +79,7 @@ func TestC09(t *testing.T) {
 		c := drawCase(t, avoid)
 		o, f := guarded(c)
 		rec.Eval(c, f == nil && nontrivial(o), labelsOf(c, o)...)
-		if o != nil {
-			rec.Label("reads")
-			rec.AddEvals(0)
-		}
-		if rec.Check(t, c, f) {
-			return
-		}
+		rec.Check(t, c, f)
 	})
 }
 
